@@ -711,3 +711,52 @@ dispatch_parser = FunctionContract(
     canary=[("return self.parse_header\n        else:\n            return self.parse_section", "return self.parse_section\n        else:\n            return self.parse_header")],
 )
 CONTRACTS.append(dispatch_parser)
+
+
+# ------------------------------------------------------------------ ITPDirector.parse_pragma: the #ifdef state of an .itp file
+FI = 'vermouth/gmx/itp_read.py'
+PMeta = TTuple(TStr, TStr, names=['tag', 'condition'])
+
+
+def setup_pp(cx):
+    cur = cx.val('CUR', TOpt(PMeta))
+    cx.spec_env['CUR'] = cur
+    return dict(self=Obj('ITPDirector', current_meta=cur), line=cx.val('line', TStr), lineno=0)
+
+
+SPEC_PP = {
+    'is_endif': "lambda: line == '#endif'",
+    'is_else': "lambda: line != '#endif' and line.startswith('#else')",
+    'is_open': "lambda: line != '#endif' and not line.startswith('#else') and (line.startswith('#ifdef') or line.startswith('#ifndef'))",
+    'is_define': "lambda: line != '#endif' and not line.startswith('#else') and not line.startswith('#ifdef') and "
+                 "not line.startswith('#ifndef') and line.startswith('#define')",
+    'flipped': "lambda c: 'ifndef' if c == 'ifdef' else 'ifdef'",
+}
+parse_pragma = FunctionContract(
+    FI, 'ITPDirector.parse_pragma', 'C13', setup=setup_pp, spec_defs=SPEC_PP, attr_types={'self.current_meta': TOpt(PMeta)},
+    locals=dict(g_cond=TStr, g_tag=TStr), ghost_at={'entry': "g_cond = ''\ng_tag = ''",
+                                                    'after:stmt:condition, tag = line.split()': "g_cond = condition\ng_tag = tag"},
+    # an open guard is an #ifdef or an #ifndef (the only conditions this method ever stores)
+    requires=["implies(CUR is not None, payload(CUR).condition == 'ifdef' or payload(CUR).condition == 'ifndef')"],
+    allow_exc=('ValueError',),          # '#ifdef' without a macro name, or with more than one word after it: line.split() does not unpack
+    ensures=[
+        # #endif closes the open guard; #else turns it into the opposite condition on the same macro; #ifdef / #ifndef opens one
+        # (only when none is open) with the macro and the condition written; #define changes nothing
+        "implies(is_endif(), CUR is not None and self.current_meta is None)",
+        "implies(is_else(), CUR is not None and self.current_meta is not None and payload(self.current_meta).tag == payload(CUR).tag and "
+        "   payload(self.current_meta).condition == flipped(payload(CUR).condition).replace('#', ''))",
+        "implies(is_open(), CUR is None and self.current_meta is not None and payload(self.current_meta).tag == g_tag and "
+        "   payload(self.current_meta).condition == g_cond.replace('#', ''))",
+        "implies(is_define(), self.current_meta == CUR)",
+        "is_endif() or is_else() or is_open() or is_define()",
+    ],
+    # IOError: #endif or #else without an open guard, a guard opened inside another, or an unknown pragma
+    raises={'OSError': ["(is_endif() and CUR is None) or (is_else() and CUR is None) or (is_open() and CUR is not None) or "
+                        "not (is_endif() or is_else() or is_open() or is_define())", "self.current_meta == CUR"]},
+    modifies=['self.current_meta'],
+    canary=[("inverse = {\"ifdef\": \"ifndef\", \"ifndef\": \"ifdef\"}", "inverse = {\"ifdef\": \"ifdef\", \"ifndef\": \"ifndef\"}"),
+            ("if self.current_meta is not None:\n                self.current_meta = None", "if self.current_meta is not None:\n                pass"),
+            ("self.current_meta = {'tag': tag, 'condition': condition.replace(\"#\", \"\")}\n            elif self.current_meta is not None:",
+             "self.current_meta = {'tag': condition, 'condition': condition.replace(\"#\", \"\")}\n            elif self.current_meta is not None:")],
+)
+CONTRACTS.append(parse_pragma)
